@@ -167,6 +167,7 @@ func (i simInfo) Sys() any           { return nil }
 // ---- loaders under test
 
 type lut struct {
+	links map[string]bool // symbolic links made in the scratch directory (never regular files for the loader)
 	kind   string // inmem, os, httpfs, embedfs
 	loader jet.Loader
 	model  *tree
@@ -349,7 +350,34 @@ func (c *c19) edit(l *lut) {
 		}
 	case "os", "httpdir":
 		fp := filepath.Join(l.root, filepath.FromSlash(p))
-		switch t.Choose(5) {
+		choice := t.Choose(6)
+		// a path that is, or lies below, a symbolic link made earlier is left alone (writing through a
+		// link would create files the reference tree does not know)
+		for q := p; q != "/" && q != "."; q = Dir(q) {
+			if l.links[q] && !(q == p && (choice == 3 || choice == 4)) {
+				return // (removing the link itself is fine)
+			}
+		}
+		switch choice {
+		case 5:
+			// a symbolic link that is no regular file for the loader: it points at nothing
+			if l.model.hasFile(p) || l.model.dirs[p] || l.links[p] {
+				return
+			}
+			parent := Dir(p)
+			if parent != "/" && !l.model.mkdirAll(parent) && !l.model.dirs[parent] {
+				return
+			}
+			os.MkdirAll(filepath.Dir(fp), 0o755)
+			target := "zz-nowhere" // dangling (a link to a directory would make everything below it reachable under a second name)
+			if err := os.Symlink(target, fp); err == nil {
+				if l.links == nil {
+					l.links = map[string]bool{}
+				}
+				l.links[p] = true
+				c.hist = append(c.hist, fmt.Sprintf("os.Symlink(%s -> %s)", p, target))
+				c.env.Stat("probe:dangling_symbolic_link", 1)
+			}
 		case 0, 1:
 			if l.model.write(p, content) {
 				os.MkdirAll(filepath.Dir(fp), 0o755)
@@ -366,6 +394,11 @@ func (c *c19) edit(l *lut) {
 		case 3, 4:
 			l.model.removeAll(p)
 			os.RemoveAll(fp)
+			for q := range l.links {
+				if q == p || strings.HasPrefix(q, p+"/") {
+					delete(l.links, q)
+				}
+			}
 			c.hist = append(c.hist, "os.RemoveAll("+p+")")
 		}
 	case "httpfs":
